@@ -7,6 +7,9 @@ V = os.path.dirname(os.path.dirname(os.path.abspath(__file__)))
 for n in range(1, 20):
     pid = "C%02d" % n
     src = "/tmp/agentprompts/%s%s.txt" % (pid, prev)
+    if not os.path.exists(src):
+        src = os.path.join(V, "tools", "prompts", "%s%s.txt" % (pid, prev))     # the last round's prompts are kept in the repository
+    os.makedirs("/tmp/agentprompts", exist_ok=True)
     s = open(src).read()
     s = s.replace("/tmp/wt-%s%s" % (pid, prev), "/tmp/wt-%s%s" % (pid, new))
     titles = []
